@@ -36,7 +36,10 @@ func main() { core.Main("C03", runC03, replayC03) }
 // catalogue entries
 // ---------------------------------------------------------------------------
 
-const numPaths = 9
+const numPaths = 11
+
+// paths whose rows come back in reverse order (the buffer is reversed through Swap before it is read)
+var reversedPath = [numPaths]bool{9: true, 10: true}
 
 var pathNames = [numPaths]string{
 	"1:Schema.Deconstruct",
@@ -48,6 +51,8 @@ var pathNames = [numPaths]string{
 	"7:GenericWriter[T].WriteRows(Deconstruct)",
 	"8:ColumnWriters.WriteRowValues",
 	"9:GenericWriter[any].Write",
+	"10:GenericBuffer[T].Write, rows reversed through Swap",
+	"11:Buffer.Write(any), rows reversed through Swap",
 }
 
 type pathResult struct {
@@ -336,6 +341,37 @@ func execPaths[T any](schema *parquet.Schema, rows []T, split []int) (res [numPa
 			return nil, err
 		}
 		return readFile(buf.Bytes())
+	})
+	// 10: typed GenericBuffer, then the rows are reversed through the buffer's
+	// Swap (sort.Interface) before they are read: the row -> value bookkeeping
+	// of the column buffers must describe the rows that were written
+	res[9] = guard(func() ([]parquet.Row, error) {
+		buf := parquet.NewGenericBuffer[T]()
+		for _, b := range bs {
+			if k, err := buf.Write(rows[b[0]:b[1]]); err != nil || k != b[1]-b[0] {
+				return nil, fmt.Errorf("Write returned %d, %v", k, err)
+			}
+		}
+		if buf.Len() != n {
+			return nil, fmt.Errorf("Len() = %d after writing %d rows", buf.Len(), n)
+		}
+		for i, j := 0, n-1; i < j; i, j = i+1, j-1 {
+			buf.Swap(i, j)
+		}
+		return readAll(buf.Rows())
+	})
+	// 11: Buffer.Write(any), reversed the same way
+	res[10] = guard(func() ([]parquet.Row, error) {
+		buf := parquet.NewBuffer(schema)
+		for i := range rows {
+			if err := buf.Write(&rows[i]); err != nil {
+				return nil, err
+			}
+		}
+		for i, j := 0, n-1; i < j; i, j = i+1, j-1 {
+			buf.Swap(i, j)
+		}
+		return readAll(buf.Rows())
 	})
 	return res
 }
@@ -917,7 +953,11 @@ func checkCase(c *core.Ctx, ct *cat, rows reflect.Value, split []int, wantVm boo
 		}
 		canon[p] = make([][]entry, n)
 		for i, row := range r.rows {
-			canon[p][i] = canonRow(row)
+			if reversedPath[p] {
+				canon[p][n-1-i] = canonRow(row)
+			} else {
+				canon[p][i] = canonRow(row)
+			}
 		}
 	}
 	// predicate 1: all paths agree value for value and level for level
